@@ -7,8 +7,8 @@
 //!        c12 run <cases-file>                       (prints one canonical line per case)
 //!
 //! Case lines (ops: tokens separated by ',', repetition `N*(a.b.c)`):
-//!   G id kv0 ops            group counter through the hooks; ops r<rand> | o | f | c | s<rand> (MsgCounterSyncRsp read)
-//!   X id kv0 ops            group counter through the real Exchange::initiate_group; ops I<rand>o | I<rand>f | c | s<rand>
+//!   G id kv0 ops            group counter through the hooks; ops r<rand> | o | f | c | s<rand> (MsgCounterSyncRsp read) | t (transport reset)
+//!   X id kv0 ops            group counter through the real Exchange::initiate_group; ops I<rand>o | I<rand>f | c | s<rand> | t
 //!   E id kv0 ops            Events::push with a scripted KV; ops po | pf | c
 //!   K id epoch kv0 r0 ops   Icd check-in counter API; ops so | sf | po | pf | i<delta> | c<r>
 //!   GW/EW/KW ...            digest sweeps: for every k in a range, k uses, restart, `post` uses
@@ -372,6 +372,11 @@ impl GroupHook {
                 self.restart();
                 Ev::Boot
             }
+            b't' => {
+                // Matter::reset_transport -> Sessions::reset: the sessions go, the counter stays
+                self.sessions.reset();
+                Ev::Done
+            }
             _ => panic!("bad group op {}", tok),
         }
     }
@@ -524,6 +529,11 @@ impl GroupReal {
                 trace.push(Ev::Boot);
                 continue;
             }
+            if tok == "t" {
+                self.matter.reset_transport().unwrap();
+                trace.push(Ev::Done);
+                continue;
+            }
             if tok.as_bytes()[0] == b's' {
                 RAND.store(tok[1..].parse::<u32>().unwrap(), Ordering::Relaxed);
                 self.matter
@@ -652,6 +662,8 @@ struct CheckinRun {
     /// what the interface has told the application: a store is owed
     owed: bool,
     obedient: bool,
+    /// the bare `CheckInCounter` driven alongside answered differently from the `Icd`
+    bare_diff: bool,
 }
 
 impl CheckinRun {
@@ -668,11 +680,23 @@ impl CheckinRun {
             epoch,
             owed: true,
             obedient: true,
+            bare_diff: false,
         }
     }
     fn kv(&self) -> Option<u64> {
         self.kv.u32_at(ICD_CHECK_IN_COUNTER_KEY).map(|v| v as u64)
     }
+    /// `persist_value()` of the counter inside the `Icd`, read by letting
+    /// `persist_counter` write into a scratch store (the counter is not changed).
+    fn icd_persist_value(&self) -> u32 {
+        let mut scratch = ScriptKv::default();
+        let mut buf = [0u8; 64];
+        self.icd.persist_counter(&mut scratch, &mut buf).unwrap();
+        scratch.u32_at(ICD_CHECK_IN_COUNTER_KEY).unwrap()
+    }
+    /// Everything printed comes from the `Icd`; the bare counter is only
+    /// compared with it (a difference is printed in the final state, never
+    /// asserted, so that the trace of the `Icd` reaches the monitor).
     fn step(&mut self, tok: &str) -> Ev {
         let mut buf = [0u8; 64];
         match tok.as_bytes()[0] {
@@ -682,18 +706,23 @@ impl CheckinRun {
                 }
                 // send_check_in: peek, (send), advance_counter
                 let v = self.icd.next_counter();
-                assert_eq!(v, self.bare.next(), "Icd and bare CheckInCounter disagree on next()");
+                if v != self.bare.next() {
+                    self.bare_diff = true;
+                }
                 let before = self.kv();
                 let stores0 = self.kv.stores;
                 self.kv.fail = tok == "sf";
                 let r = self.icd.advance_counter(&mut self.kv, &mut buf);
                 self.kv.fail = false;
                 let told = self.bare.advance();
-                assert_eq!(told.is_some(), self.kv.stores > stores0, "advance() and advance_counter disagree on a store being due");
-                match (told, r) {
-                    (Some(_), Ok(())) => self.owed = false,
-                    (Some(_), Err(_)) => self.owed = true,
-                    (None, _) => {}
+                // what the interface told the application: a store was attempted
+                // (advance returned a boundary) and it succeeded / failed
+                let attempted = self.kv.stores > stores0;
+                if told.is_some() != attempted {
+                    self.bare_diff = true;
+                }
+                if attempted {
+                    self.owed = r.is_err();
                 }
                 Ev::Yield(v as u64, before)
             }
@@ -713,33 +742,42 @@ impl CheckinRun {
                 let d = tok[1..].parse::<u64>().unwrap() as u32;
                 let moved = self.icd.invalidate_counter(d);
                 let told = self.bare.advance_by(d);
-                assert_eq!(moved, told.is_some(), "invalidate_counter and advance_by disagree");
-                match told {
-                    Some(b) => {
-                        self.owed = true;
-                        Ev::Pend(b as u64)
-                    }
-                    None => Ev::Done,
+                if moved != told.is_some() {
+                    self.bare_diff = true;
+                }
+                if moved {
+                    self.owed = true;
+                    Ev::Pend(self.icd_persist_value() as u64)
+                } else {
+                    Ev::Done
                 }
             }
             b'c' => {
                 let r = tok[1..].parse::<u64>().unwrap() as u32;
                 let kv = std::mem::take(&mut self.kv);
-                let ob = self.obedient;
+                let (ob, bd) = (self.obedient, self.bare_diff);
                 *self = CheckinRun::boot(kv, r, self.epoch);
                 self.obedient = ob;
+                self.bare_diff = bd;
                 Ev::Boot
             }
             _ => panic!("bad check-in op {}", tok),
         }
     }
     fn final_str(&self) -> String {
-        assert_eq!(self.icd.next_counter(), self.bare.next());
+        let same = !self.bare_diff
+            && self.icd.next_counter() == self.bare.next()
+            && self.icd_persist_value() == self.bare.persist_value();
         format!(
-            "{} {} {}",
+            "{} {} {} {}",
             self.icd.next_counter(),
             kv_str(self.kv()),
-            self.bare.persist_value()
+            self.icd_persist_value(),
+            if same {
+                "bare=ok".to_string()
+            } else {
+                format!("bare={}/{}", self.bare.next(), self.bare.persist_value())
+            }
         )
     }
 }
@@ -881,7 +919,7 @@ impl<C: Crypto> Runner<C> {
                         ev_digest(&mut d, m.step("so"));
                     }
                     d.push(m.icd.next_counter() as u64);
-                    d.push(m.bare.persist_value() as u64);
+                    d.push(m.icd_persist_value() as u64);
                     match m.kv() {
                         None => d.push(0),
                         Some(x) => {
@@ -1044,11 +1082,32 @@ fn generate(tier: &str, seed: u64) -> Gen {
             } else if k < 85 {
                 ops.push("c".into());
             } else {
-                ops.push((*g.rng.pick(&["r0", "o", "f", "c"])).to_string());
+                ops.push((*g.rng.pick(&["r0", "o", "f", "c", "t", "t"])).to_string());
             }
             i += 1;
         }
         g.add("g_random_long", "G", format!("{} {}", s, ops.join(",")));
+    }
+    // -- a transport reset (Matter::reset_transport) anywhere: short sequences ...
+    let gt_seqs = all_seqs(&["r0", "o", "f", "c", "t"], if thorough { 6 } else { 5 });
+    for &s in &[1u64, 1000, G_MASK - 1000, G_MASK - 999, G_MASK] {
+        for q in &gt_seqs {
+            if q.contains('t') {
+                g.add("g_reset_short_exhaustive", "G", format!("{} {}", s, q));
+            }
+        }
+    }
+    // ... and runs that, after a reset at any point of an epoch, go on to (and past) the boundary
+    // that was durable at the reset, then restart
+    let reset_starts: [u64; 6] = [1, 1000, G_MASK - 1500, G_MASK - 999, G_MASK - 500, 123_456];
+    let reset_ks: [u64; 6] = [0, 1, 499, 997, 998, 999];
+    for &s in &reset_starts {
+        for &k in &reset_ks {
+            let q = format!("{}*(r0.o),t,{}*(r0.o),c,5*(r0.o)", k + 1, 1002 - k);
+            g.add("g_reset_to_boundary", "G", format!("{} {}", s, q));
+            let q = format!("{}*(I0o),t,{}*(I0o),c,5*(I0o)", k + 1, 1002 - k);
+            g.add("x_reset_to_boundary", "X", format!("{} {}", s, q));
+        }
     }
     // -- foreign KV contents (outside the ring): correspondence only
     for &s in &[0u64, G_MASK + 1, G_MASK + 2, 0xffff_fc17, 0xffff_fc18, 0xffff_fffe, 0xffff_ffff, 0x1000_03e8] {
@@ -1075,6 +1134,14 @@ fn generate(tier: &str, seed: u64) -> Gen {
     for &s in &[1u64, 1000, G_MASK - 1000, G_MASK - 999, G_MASK - 1, G_MASK] {
         for q in &x_seqs {
             g.add("x_short_exhaustive", "X", format!("{} {}", s, q));
+        }
+    }
+    let xt_seqs = all_seqs(&["I0o", "I0f", "c", "t"], if thorough { 6 } else { 5 });
+    for &s in &[1000u64, G_MASK - 999, G_MASK] {
+        for q in &xt_seqs {
+            if q.contains('t') {
+                g.add("x_reset_short_exhaustive", "X", format!("{} {}", s, q));
+            }
         }
     }
     for &r in &[0u64, 1, G_MASK, G_MASK + 1, 0xffff_ffff, 0x0abc_def0] {
@@ -1105,6 +1172,8 @@ fn generate(tier: &str, seed: u64) -> Gen {
                 i += n;
             } else if k < 80 {
                 ops.push("I0f".into());
+            } else if k < 90 {
+                ops.push("t".into());
             } else {
                 ops.push("c".into());
             }
@@ -1333,8 +1402,36 @@ fn main() {
             let mut out = String::new();
             let stdout = std::io::stdout();
             let mut lock = stdout.lock();
+            rsm_harness::silence_panics();
             for line in text.lines() {
-                runner.run_line(line, &mut out);
+                // one case = one line, whatever happens inside: a panic / failed unwrap in the
+                // code under test or in the harness becomes a token the checker reports with the case
+                let mut cur = String::new();
+                let r = std::panic::catch_unwind(std::panic::AssertUnwindSafe(|| {
+                    runner.run_line(line, &mut cur)
+                }));
+                match r {
+                    Ok(()) => out.push_str(&cur),
+                    Err(e) => {
+                        let msg = if let Some(m) = e.downcast_ref::<&str>() {
+                            m.to_string()
+                        } else if let Some(m) = e.downcast_ref::<String>() {
+                            m.clone()
+                        } else {
+                            "panic".to_string()
+                        };
+                        let msg: String = msg
+                            .chars()
+                            .map(|c| if c.is_ascii_alphanumeric() { c } else { '_' })
+                            .take(120)
+                            .collect();
+                        let mut it = line.split(' ');
+                        let (k, id) = (it.next().unwrap_or("?"), it.next().unwrap_or("?"));
+                        writeln!(out, "{} {} !panic {}", k, id, msg).unwrap();
+                        // the long-lived Matter of the X stream may be in any state now
+                        runner.real = None;
+                    }
+                }
                 if out.len() > 1 << 20 {
                     lock.write_all(out.as_bytes()).unwrap();
                     out.clear();
